@@ -86,9 +86,7 @@ def _real_world():
 
 
 def _hybrid(cfile):
-    m = bridge.module(cfile)
-    it = Interp(m, hybrid=True)
-    return it
+    return bridge.new_interp(cfile, hybrid=True)
 
 
 def _ptr_of(p):
